@@ -441,6 +441,12 @@ def fam_spin_core(tier="quick"):
             s = [f"aw 0 1 {o_ld}", f"aw 0 1 {o_ld} ; ld 1 rlx", f"ld 1 rlx ; aw 0 1 {o_ld}"]
             L += exhaustive(f"sp{o_st}{o_ld}a", ["A0", "A0"], [s, w], 1)
             L += exhaustive(f"sp{o_st}{o_ld}b", ["A0", "A0"], [w, s], 1)
+    # two consecutive loops, the setter may have finished long before (the spinner is the only runnable thread)
+    for o in ("rlx", "acq"):
+        L += exhaustive(f"sp2{o}", ["A0", "A0", "A0"], [[f"aw 0 1 {o} ; aw 1 1 {o} ; ld 2 rlx", f"aw 1 1 {o} ; aw 0 1 {o}"],
+                                                      ["st 0 1 rlx ; st 2 1 rlx ; st 1 1 rlx", "st 0 1 rel ; st 1 1 rel"]], 1)
+        L += exhaustive(f"sp2{o}b", ["A0", "A0", "A0"], [["st 0 1 rlx ; st 2 1 rlx ; st 1 1 rlx"],
+                                                       [f"aw 0 1 {o} ; aw 1 1 {o} ; ld 2 rlx"]], 1)
     # a third thread that only reads
     L += exhaustive("sp3", ["A0", "A0"], [["aw 0 1 acq ; ld 1 rlx"], ["st 1 7 rlx ; st 0 1 rel"], ["ld 0 rlx", "ld 1 rlx"]], 1)
     # a loop whose condition can never hold: branch limit, small max_branches to keep it short
@@ -592,6 +598,9 @@ def fam_ctl_core(tier="quick"):
         # misuse: explore while exploring, stop twice
         L.append(prog_line(f"ctX{n}", decls, [["sp 1", "ex"] + b0 + ["jn 1"], b1])); n += 1
         L.append(prog_line(f"ctX{n}", decls, [["sp 1", "sx", "sx"] + b0 + ["jn 1"], b1])); n += 1
+        # a stopped region that comes before a skip_branch in program order: skipping must not leak into the next iteration
+        L.append(prog_line(f"ctM{n}", decls, [["sp 1", "sx"] + b0[:1] + ["ex"] + b0[1:] + ["sk", "jn 1"], b1])); n += 1
+        L.append(prog_line(f"ctM{n}", decls, [["sp 1"] + b0 + ["jn 1"], ["sx"] + b1[:1] + ["ex"] + b1[1:] + ["sk"]])); n += 1
     return L
 
 
@@ -699,6 +708,10 @@ def fam_litmus_core(tier="quick"):
         assigns.append([L_ORD[k][0] for k in kinds])          # all relaxed
         assigns.append([("acq" if k == "R" else "rel" if k == "W" else "ar") for k in kinds])
         assigns.append(["sc"] * nacc)
+        # release/acquire accesses around RMWs of every weaker ordering (release sequences)
+        if "U" in kinds or "C" in kinds:
+            for uo in ("rlx", "rel", "acq"):
+                assigns.append([("acq" if k == "R" else "rel" if k == "W" else ("rlx" if (k == "C" and uo != "rlx") else uo)) for k in kinds])
         # one position strengthened / weakened at a time
         for i in range(nacc):
             if heavy and not big:
